@@ -513,3 +513,28 @@ func TestReplay_RemovedOutputStaysRemoved(t *testing.T) {
 		t.Errorf("REPLAY-CONFIRMED scope.createInstance#post[removed_outputs_are_not_stored]: the remaining output is no longer resolvable: %v", err)
 	}
 }
+
+type rbPeer struct{ peers []*rbPeer }
+type rbPeerIn struct {
+	In
+	Peers []*rbPeer `group:"rb-peers" name:"ignored-at-resolution"`
+}
+
+// reflection.Analyzer.buildDependencies#post[one_dependency_per_parameter]: a group field is resolved as the whole group whatever
+// other tags it carries, so its dependency must be the group - also for cycle detection.
+func TestReplay_GroupFieldWithNameTagIsStillAGroupDependency(t *testing.T) {
+	c := NewCollection()
+	if err := c.AddTransient(func(in rbPeerIn) *rbPeer { return &rbPeer{peers: in.Peers} }, Group("rb-peers")); err != nil {
+		t.Fatal(err)
+	}
+	p, err := c.Build()
+	if err == nil {
+		p.Close()
+		t.Errorf("REPLAY-CONFIRMED Analyzer.buildDependencies#post[one_dependency_per_parameter]: Build accepted a member of group rb-peers that consumes the group rb-peers (through a field tagged group and name): resolving it would recurse without end")
+		return
+	}
+	var ce *CircularDependencyError
+	if !errors.As(err, &ce) {
+		t.Errorf("REPLAY-CONFIRMED Analyzer.buildDependencies#post[one_dependency_per_parameter]: rejected, but not as a circular dependency: %v", err)
+	}
+}
